@@ -8,6 +8,7 @@
     atomicity/durability and the process model are the model's assumptions (Model/Replay.v). *)
 From Coq Require Import List NArith Sorted.
 From PV Require Import Model.Replay Proofs.Replay Oracle.C15 Proofs.ReplayOracle.
+From PV Require Model.AckConc Proofs.AckConc.
 Import ListNotations.
 
 (** The restart function (nacked_log_ranges from the frontier, then replay_log_ranges) computes,
@@ -113,3 +114,27 @@ Theorem C15_oracle_assoc_complete :
     forall r, In r (rows (o_d o)) -> r_log r = Oracle.C15.tlog -> In (rkey r) (assoc (o_d o)).
 Proof. exact check_obs_assoc. Qed.
 Print Assumptions C15_oracle_assoc_complete.
+
+(** Concurrent acknowledgements through the stream's ONE [Acked] (Model/AckConc.v, the permit
+    modelled): for every schedule of k calls in flight at once, once all have returned the tables
+    are those after acknowledging the accepted operations one after the other in some order - so
+    every theorem above applies to the state a concurrent burst of acks leaves behind. *)
+Theorem C15_concurrent_acks_serialisable :
+  forall (tlog : logid) (rs : list row) (d : durable) (sched : list nat),
+    AckConc.dconc_all_done rs (AckConc.dconc_run tlog rs d sched) ->
+    exists order : list row,
+      Permutation.Permutation order (filter (fun r => N.eqb (r_log r) tlog) rs) /\
+      AckConc.m_store (AckConc.dconc_run tlog rs d sched) = dexec tlog d (map LAck order).
+Proof. exact Proofs.AckConc.dconc_serialisable. Qed.
+Print Assumptions C15_concurrent_acks_serialisable.
+
+(** After any history, k concurrent acks in ANY interleaving and whatever happens afterwards
+    (crashes included), a restart from the frontier replays none of the operations those calls
+    acknowledged, nor an earlier operation of their logs. *)
+Theorem C15_concurrent_acks_not_redelivered :
+  forall (tlog : logid) (tr0 : list label) (rs : list row) (sched : list nat) (tr2 : list label) (a r : row),
+    AckConc.dconc_all_done rs (AckConc.dconc_run tlog rs (after tlog tr0) sched) ->
+    In a rs -> r_log a = tlog -> rkey r = rkey a -> (r_seq r <= r_seq a)%N ->
+    ~ In r (replay_entries (dexec tlog (AckConc.m_store (AckConc.dconc_run tlog rs (after tlog tr0) sched)) tr2)).
+Proof. exact Proofs.AckConc.concurrent_acks_not_redelivered. Qed.
+Print Assumptions C15_concurrent_acks_not_redelivered.
